@@ -90,12 +90,14 @@ def run_demo(pid, n, release):
             m_ = re.search(r"ulimit -v (\d+)", open("%s/demo%d.sh" % (d, n)).read())
             if m_:
                 limit = "ulimit -v %s; " % m_.group(1)      # the demonstration runs under an address-space budget
-        rc, out = sh("cargo build --manifest-path %s/Cargo.toml --offline -q %s -p yarel-cli >/dev/null 2>&1; bash -c '%s%s/target/%s/yarel-cli demo%d.yl 2>/dev/null'" % (
+        rc, out = sh("cargo build --manifest-path %s/Cargo.toml --offline -q %s -p yarel-cli >/dev/null 2>&1; bash -c '%s%s/target/%s/yarel-cli demo%d.yl 2>/tmp/confirm_stderr.txt'" % (
             WT, prof, limit, WT, "release" if release else "debug", n), cwd=d, timeout=600)
+        err_text = open("/tmp/confirm_stderr.txt", errors="replace").read() if os.path.exists("/tmp/confirm_stderr.txt") else ""
         d = d_save
         exp = open("%s/demo%d.expected" % (d, n)).read()
         ok = matches(out, exp) and rc not in (101, 134, 139)      # a panic / abort / segfault never counts as passing
-        return ok, "exit=%d\n%s" % (rc, out[-1500:])
+        # (the transcript includes stderr: a mutant whose stdout is right but whose final error message differs does not pass)
+        return ok, "exit=%d\n%s\n--stderr--\n%s" % (rc, out[-1500:], err_text[-800:])
     if os.path.exists("%s/demo%d.repl" % (d, n)):
         rc, out = sh("cargo build --manifest-path %s/Cargo.toml --offline -q %s -p yarel-cli >/dev/null 2>&1; cargo run --manifest-path %s/Cargo.toml --offline -q %s -p yarel-cli < %s/demo%d.repl 2>&1; echo \"exit status: $?\"" % (
             WT, prof, WT, prof, d, n), cwd=d, timeout=600)
